@@ -20,6 +20,7 @@ MUTANTS = {
  'm13_string_entry_point_ignores_citations': ('pybtex/__init__.py', "        return self.format_from_files(inputs, *args, **kwargs)", "        kwargs.pop('citations', None)\n        return self.format_from_files(inputs, *args, **kwargs)"),
  'm14_cli_min_crossrefs_dropped': ('pybtex/__main__.py', "        engine.make_bibliography(filename, **options)", "        options.pop('min_crossrefs', None)\n        engine.make_bibliography(filename, **options)"),
  'm15_cli_style_option_dropped': ('pybtex/__main__.py', "        ext = path.splitext(filename)[1]", "        options['style'] = None\n        ext = path.splitext(filename)[1]"),
+ 'm16_bibdata_sorted_set': ('pybtex/__init__.py', "for filename in aux_data.data]", "for filename in sorted(set(aux_data.data))]"),
  # must NOT alarm: renamed local, reordered independent statements, reworded messages
  'h1_harmless_refactoring': [
    ('pybtex/__init__.py', "        base_filename = path.splitext(aux_filename)[0]\n        bib_filenames = [filename + bib_format.default_suffix for filename in aux_data.data]\n",
@@ -45,7 +46,7 @@ def run(name):
     viol = [l for l in p.stdout.split('\n') if l.startswith('VIOLATION')]
     import json
     what = []
-    for l in viol[:4]:
+    for l in viol[:12]:
         m = re.search(r'replay=(\S+)', l)
         try:
             r = json.load(open(m.group(1)))
